@@ -40,6 +40,7 @@ def main (args : List String) : IO UInt32 := do
   | "chain" :: _ => loopState stdin stdout chainStep (Drand.Chain.Stack.init true []); return 0
   | ["hash"] => loopPure stdin stdout hashStep; return 0
   | ["handler"] => loopState stdin stdout handlerStep ({} : Sim); return 0
+  | ["handler", "fixed"] => loopState stdin stdout handlerStep ({ cfg := ⟨1, 0, 0, true⟩ } : Sim); return 0
   | ["store", backend] =>
     match storeInit backend with
     | some st => loopState stdin stdout storeStep st; return 0
